@@ -1,8 +1,9 @@
 import collections.abc
+import pickle
 try:
-    import dill as pickle
+    import dill
 except ImportError:
-    import pickle
+    dill = None
 import multiprocessing as mp
 import signal
 import time
@@ -493,8 +494,10 @@ class AbstractWorker:
                 # need to stop this task and continue with the next one
                 return None, False, False, False
 
-            except (Exception, SystemExit) as err:
-                # An exception occurred inside the provided function. Let the signal handler know it shouldn't raise any
+            except BaseException as err:
+                # An exception occurred inside the provided function (this includes exceptions that don't derive from
+                # Exception, like SystemExit, KeyboardInterrupt, or asyncio.CancelledError, which would otherwise kill
+                # the worker without anyone noticing). Let the signal handler know it shouldn't raise any
                 # StopWorker or InterruptWorker exceptions from the parent process anymore, we got this.
                 self.worker_comms.set_worker_running_task(self.worker_id, False)
 
@@ -552,11 +555,15 @@ class AbstractWorker:
         # <class ...>: it's not the same object as ...). We check that here by trying the pickle.dumps manually.
         # The call to `queue.put` creates a thread in which it pickles and when that raises an exception we
         # cannot catch it.
+        # We have to use the same serialization backend as the results queue does, and pickling can fail in more ways
+        # than a PicklingError (e.g., AttributeError for local objects, or whatever a custom __reduce__ raises).
+        use_dill = self.pool_params.use_dill and dill is not None and self.pool_params.start_method != 'threading'
+        pickler = dill if use_dill else pickle
         try:
-            pickle.dumps(type(err))
-            pickle.dumps(err.args)
-            pickle.dumps(err.__dict__)
-        except (pickle.PicklingError, TypeError):
+            pickler.dumps(type(err))
+            pickler.dumps(err.args)
+            pickler.dumps(err.__dict__)
+        except Exception:
             err = CannotPickleExceptionError(repr(err))
 
         return type(err), err.args, err.__dict__, traceback_str
